@@ -397,8 +397,12 @@ func blockStringValue(in string) string {
 		}
 	}
 	if commonIndent > 0 {
-		for i, line := range lines {
+		// The first line is not indented like the others; a (blank) line
+		// shorter than the common indent loses all of it.
+		for i := 1; i < len(lines); i++ {
+			line := lines[i]
 			if commonIndent > len(line) {
+				lines[i] = ""
 				continue
 			}
 			lines[i] = line[commonIndent:]
